@@ -48,3 +48,59 @@ def is_unconditional_top(fn: ast.AST, node: ast.AST) -> bool:
     while st is not None and not isinstance(st, ast.stmt):
         st = parent(st)
     return st is not None and any(st is s for s in fn.body)
+
+
+def lock_with_of(w) -> Optional[ast.With]:
+    """The `with <Locker(...)> as r:` block of the worker (the lock object may be bound to any local name)."""
+    lockers = {st.targets[0].id for st in ast.walk(w.node) if isinstance(st, ast.Assign) and isinstance(st.value, ast.Call)
+               and (dotted_name(st.value.func) or '').split('.')[-1] == 'Locker' and isinstance(st.targets[0], ast.Name)}
+    found = None
+    for n in ast.walk(w.node):
+        if isinstance(n, ast.With):
+            for it in n.items:
+                src = norm(it.context_expr)
+                if src in lockers or 'Locker(' in src:
+                    found = n
+    return found
+
+
+def row_var(w) -> Optional[str]:
+    """Name of the string the worker appends to the shared result file: the argument of the write on the handle the lock yields."""
+    lw = lock_with_of(w)
+    if lw is None:
+        return None
+    names = {x.id for c in ast.walk(lw) if isinstance(c, ast.Call) and isinstance(c.func, ast.Attribute)
+             and c.func.attr in ('write', 'writelines') for a in c.args for x in ast.walk(a) if isinstance(x, ast.Name)}
+    return next(iter(names)) if len(names) == 1 else None
+
+
+def token_expressions(w) -> List[Tuple[ast.AugAssign, ast.AST]]:
+    """(statement, value) for every `row += <value>` inside a loop of the worker, the value composed over the straight-line code before
+    it (`s = line.split(':'); s = s[1].strip(); ...; row += s + ', '` reads as one expression)."""
+    from gxstat.inline import inline_sequential
+    rv = row_var(w)
+    out = []
+    if rv is None:
+        return out
+    for lp in ast.walk(w.node):
+        if isinstance(lp, ast.For):
+            for st in ast.walk(lp):
+                if isinstance(st, ast.AugAssign) and isinstance(st.target, ast.Name) and st.target.id == rv and not any(st is x for x, _ in out):
+                    out.append((st, inline_sequential(st.value, st)))
+    return out
+
+
+def strips_commas(expr: ast.AST) -> bool:
+    """The copied token goes through `.replace(',', '')` on its way into the row (somewhere along its method/subscript chain)."""
+    e = expr
+    if isinstance(e, ast.BinOp) and isinstance(e.op, ast.Add):        # `<token> + ', '`
+        e = e.left
+    while isinstance(e, (ast.Call, ast.Subscript, ast.Attribute)):
+        if isinstance(e, ast.Call):
+            if isinstance(e.func, ast.Attribute) and e.func.attr == 'replace' and len(e.args) >= 2 and \
+                    isinstance(e.args[0], ast.Constant) and e.args[0].value == ',' and isinstance(e.args[1], ast.Constant) and e.args[1].value == '':
+                return True
+            e = e.func
+        else:
+            e = e.value
+    return False
